@@ -83,6 +83,26 @@ def scenario(B, G, n, h, a, psd=True):
     for k, (i, j) in enumerate(pairs):
         G.eq("paired_re[%d,%d]" % (i, j), pv[0, k], rho[0, i, j])
         G.eq("paired_im[%d,%d]" % (i, j), pv[1, k], rho[1, i, j])
+    # full-matrix call form with two DIFFERENT batches of equal length (permuted columns; a square off-diagonal block)
+    perm = list(reversed(range(D)))
+    if D > 2:
+        perm[0], perm[1] = perm[1], perm[0]
+    rp = B.scalars(st.rho(space, C.rows_tensor(B, [rows[j] for j in perm])))
+    G.fact("permuted_columns_shape", rp.shape == (2, D, D), rp.shape)
+    if rp.shape == (2, D, D):
+        for i in range(D):
+            for k, j in enumerate(perm):
+                G.eq("permuted_columns_re[%d,%d]" % (i, k), rp[0, i, k], rho[0, i, j])
+                G.eq("permuted_columns_im[%d,%d]" % (i, k), rp[1, i, k], rho[1, i, j])
+    if D >= 2:
+        m = D // 2
+        blk = B.scalars(st.rho(C.rows_tensor(B, rows[:m]), C.rows_tensor(B, rows[m:2 * m])))
+        G.fact("offdiagonal_block_shape", blk.shape == (2, m, m), blk.shape)
+        if blk.shape == (2, m, m):
+            for i in range(m):
+                for j in range(m):
+                    G.eq("offdiagonal_block_re[%d,%d]" % (i, j), blk[0, i, j], rho[0, i, m + j])
+                    G.eq("offdiagonal_block_im[%d,%d]" % (i, j), blk[1, i, j], rho[1, i, m + j])
     dv = B.scalars(st.rho(space, expand=False))
     for i in range(D):
         G.eq("rho(v,expand=False)[%d]" % i, dv[0, i], prob[i])
@@ -147,6 +167,8 @@ def jobs(tier):
     # real sampler hands to torch.bernoulli is in detailed balance with the diagonal (scenario shared with C05)
     for t in [(1, 1, 1), (2, 1, 2)] + ([(2, 2, 2), (3, 2, 1)] if tier != "quick" else []):
         out.append(dict(name="samples-from-diagonal-%d-%d-%d" % t, module="checks.c05", scenario="kernel", kwargs=dict(kind="mixed", n=t[0], h=t[1], a=t[2])))
+        # ... and k successive sweeps of the real sampler redraw every layer from the current state (C05's chain scenario)
+        out.append(dict(name="sampler-sweeps-%d-%d-%d" % t, module="checks.c05", scenario="chain", kwargs=dict(kind="mixed", n=t[0], h=t[1], a=t[2])))
     return out
 
 
